@@ -79,7 +79,13 @@ func (v *Vue) evalInclude(ctx VueContext, node *html.Node, vars map[string]any, 
 	// A <template> root has been evaluated by evalTemplate already; evaluating its
 	// result a second time would interpret data values as template code
 	if isTemplateRoot(compDom) {
-		return processedDom, nil
+		// What follows the root <template> in the component's file - typically its
+		// <style> or <script> - belongs to the component as well
+		rest, err := v.evaluate(childCtx, compDom[1:], depth+1)
+		if err != nil {
+			return nil, err
+		}
+		return append(processedDom, rest...), nil
 	}
 
 	return v.evaluate(childCtx, compDom, depth+1)
